@@ -129,6 +129,32 @@ def py_agg_prob(comp, T, deg):
     return acc + [Fraction(0)] * (deg + 1 - len(acc))
 
 
+def f32_neighbours(x):
+    """the f32 values just below and just above the real number x (as exact Fractions)"""
+    import struct
+    f = struct.unpack("<f", struct.pack("<f", float(x)))[0]
+    bits = struct.unpack("<I", struct.pack("<f", f))[0]
+    out = []
+    for b in (bits - 1, bits, bits + 1):
+        v = struct.unpack("<f", struct.pack("<I", b))[0]
+        out.append(Fraction(v))
+    return sorted(set(out))
+
+
+def boundary_fractions(mass, nmax=8):
+    """signal fractions that sit, at f32 granularity, on either side of each point where the Poisson estimate of the
+    composition's mass steps from n to n+1 peaks: t_n = 1 - (lambda^n/n!) / sum_{k<=n} lambda^k/k!"""
+    lam = Fraction(mass) / 1800
+    term, acc = Fraction(1), Fraction(1)
+    out = []
+    for n in range(1, nmax + 1):
+        term = term * lam / n
+        acc += term
+        t = 1 - term / acc
+        out += [v for v in f32_neighbours(t) if 0 < v < 1]
+    return sorted(set(out))
+
+
 def corr_lists(peaks, mpeaks, z):
     """impl vs model peak lists.  Variants are about 1/|z| apart, so peaks are aligned by m/z; an aligned pair must
     agree (m/z to 1e-9 relative when it carries >= 1e-9 of the signal, to 1e-6 relative below that — the centre of
@@ -306,6 +332,13 @@ def run_c03_c09(r: Run, prop):
         cases.append(([("C", 60), ("H", 120), ("O", 60)], f"n:{d}", 0, PROTON, "vec"))
         cases.append(([("Mg", min(d, 300)), ("C", 2)], "n:7", 1, PROTON, "map"))
     if prop == "C09":
+        # fraction requests on either side (one f32 step) of every point where the resolved count changes: "a request by
+        # signal fraction f returns the same pattern as a fixed request for the Poisson estimate of f" — of the f32 the caller
+        # passed, widened exactly
+        for comp in ([("C", 6), ("H", 12), ("O", 6)], [("C", 34), ("H", 53), ("O", 15), ("N", 7)], [("C", 30), ("H", 62)], [("K", 3)]):
+            mass = sum(T[s]["mono"] * n for s, n in comp)
+            for f in boundary_fractions(mass, 8 if thorough else 6):
+                cases.append((comp, f"f:{f.numerator}/{f.denominator}", rng.choice([0, 1]), PROTON, "vec"))
         pool = [[("C", 6), ("H", 12), ("O", 6)], [("K", 3)], [("Si", 2), ("Mg", 1), ("O", 4)], [("H", 2), ("O", 1)],
                 [("Cl", 2)], [("K", 300)], [("Br", 4)], [("S", 8)], [("Ca", 1), ("Cl", 2)], [("C", 60), ("H", 120), ("O", 60)]]
         ns = list(range(-3, 41)) + [64, 150, 300, 320] if thorough else [-3, -1, 0, 1, 2, 3, 4, 7, 8, 9, 16, 33, 64, 300, 320]
@@ -327,6 +360,11 @@ def run_c03_c09(r: Run, prop):
         if i % 4 == 0 and not (len(c) == 1 and c[0][1] == 1):
             extra.append((c, req, z, ca, ("d" if (i // 4) % 2 == 0 else "c") + form))
     cases += extra
+    # a composition whose mass memo is stale (fmass, then counts written through the public field): fixed requests only
+    # (the default and fraction requests size themselves from mass(), which the memo answers)
+    for i, (c, req, z, ca, form) in enumerate(list(cases)):
+        if i % 7 == 3 and req.startswith("n:") and form in ("vec", "map") and not (len(c) == 1 and c[0][1] == 1):
+            cases.append((c, req, z, ca, "s" + form))
     lines = [f"brain\t{pairs_of(c)}\t{req}\t{z}\t{fr(ca)}\t{form}" for c, req, z, ca, form in cases]
     impl = r.impl("brain", lines, stall=120)
     # the model has one entry point: the constructor forms are modelled as the function (same request semantics)
@@ -366,7 +404,8 @@ def run_c03_c09(r: Run, prop):
             culprits = sorted(s for s, n in comp if s in single_bad and n > 0)
             wit = {"element": culprits[0]} if culprits else {"elements": list(els)[:4]}
             if len(form) == 4:
-                wit["entry"] = {"d": "IsotopicDistribution::from_composition", "c": "IsotopicDistribution::from_composition_and_cache"}[form[0]]
+                wit["entry"] = {"d": "IsotopicDistribution::from_composition", "c": "IsotopicDistribution::from_composition_and_cache",
+                                "s": "composition with a stale mass memo"}[form[0]]
             if (clause, json.dumps(wit)) in seen:
                 continue
             seen.add((clause, json.dumps(wit)))
